@@ -989,6 +989,9 @@ impl UnifiedCommandExecutor {
     fn execute_sorted_set(&self, db: usize, cmd: SortedSetCommand) -> Result<RespFrame> {
         match cmd {
             SortedSetCommand::ZAdd { key, score_members } => {
+                if score_members.iter().any(|(score, _)| score.is_nan()) {
+                    return Err(FerrousError::Command(CommandError::InvalidFloatValue));
+                }
                 let mut added = 0;
                 for (score, member) in score_members {
                     if self.storage.zadd(db, key.clone(), member, score)? {
